@@ -8,7 +8,7 @@ from props import PROPS, HOOK_COMMITS, NOT_APPLICABLE
 ALL = [json.loads(l)["id"] for l in open(os.path.join(ROOT, "properties.jsonl"))]
 checks = []
 for pid in ALL:
-    if pid not in PROPS:
+    if pid not in PROPS or not PROPS[pid]["theorems"]:
         continue
     c = PROPS[pid]
     checks.append({
@@ -23,7 +23,7 @@ for pid in ALL:
         "technique": c.get("technique", "Lean 4 theorems over an executable model; model tied to /repo by regenerated fact tables (tie theorems) and a differential correspondence check"),
     })
 na = [{"property_id": p, "reason": NOT_APPLICABLE.get(p, "check not built yet in this session (see DESIGN.md section 8 for the order of construction); no claim is made")}
-      for p in ALL if p not in PROPS]
+      for p in ALL if p not in PROPS or not PROPS[p]["theorems"]]
 m = {
     "version": 1,
     "setup_cmd": "./check setup",
